@@ -479,3 +479,107 @@ package fpgo
 //@ func DefPattern
 //@   prop C20
 //@   ensures made: r0.patterns == patterns
+
+// ===================================================================================================
+// C20 - MatchFor is first-match.  Stated as a protocol over the calls it makes through the Pattern interface (events of
+// kind 2: tr_recv = the pattern, tr_fn = method("Pattern.Matches") / method("Pattern.Apply"), tr_arg = the probed value,
+// tr_res = the boxed result): the patterns are asked in list order, each at most once, every earlier one answered false;
+// after the first that answers true exactly one Apply follows - on that same pattern, with the value that was tested - and
+// its result is returned; nothing else is asked.  MatchFor panics exactly when every pattern was asked and answered false.
+// The probed value is the argument itself unless the argument is a pointer (a non-nil pointer to a struct is dereferenced).
+//@ func (PatternMatching).MatchFor
+//@   prop C20
+//@   opt callbacks=effectful
+//@   opt effects=trace
+//@   opt dispatch=Pattern:off;MaybeDef:force
+//@   requires forall(k, 0, len(patternMatchingSelf.patterns), !untyped(patternMatchingSelf.patterns[k]))
+//@   ensures asked: tr_len >= old(tr_len)+2 && tr_len - old(tr_len) - 2 < len(patternMatchingSelf.patterns)
+//@   ensures earlier-rejected: forall(k, 0, tr_len - old(tr_len) - 2, tr_kind[old(tr_len)+k] == 2 && tr_recv[old(tr_len)+k] == patternMatchingSelf.patterns[k] && tr_fn[old(tr_len)+k] == method("Pattern.Matches") && tr_res[old(tr_len)+k] == boxed(false))
+//@   ensures first-accepting: tr_kind[tr_len-2] == 2 && tr_recv[tr_len-2] == patternMatchingSelf.patterns[tr_len - old(tr_len) - 2] && tr_fn[tr_len-2] == method("Pattern.Matches") && tr_res[tr_len-2] == boxed(true)
+//@   ensures applied: tr_kind[tr_len-1] == 2 && tr_recv[tr_len-1] == patternMatchingSelf.patterns[tr_len - old(tr_len) - 2] && tr_fn[tr_len-1] == method("Pattern.Apply") && tr_arg[tr_len-1] == tr_arg[tr_len-2] && r0 == tr_res[tr_len-1]
+//@   ensures probe: rkind(inValue) != 22 ==> forall(k, old(tr_len), tr_len, tr_arg[k] == inValue)
+//@   ensures@panic none-accepted: tr_len == old(tr_len) + len(patternMatchingSelf.patterns) && forall(k, 0, len(patternMatchingSelf.patterns), tr_kind[old(tr_len)+k] == 2 && tr_recv[old(tr_len)+k] == patternMatchingSelf.patterns[k] && tr_fn[old(tr_len)+k] == method("Pattern.Matches") && tr_res[old(tr_len)+k] == boxed(false))
+//@ func (PatternMatching).MatchFor loop 0
+//@   invariant rejected: tr_len == old(tr_len) + _i && forall(k, 0, _i, tr_kind[old(tr_len)+k] == 2 && tr_recv[old(tr_len)+k] == patternMatchingSelf.patterns[k] && tr_fn[old(tr_len)+k] == method("Pattern.Matches") && tr_res[old(tr_len)+k] == boxed(false))
+//@   invariant probe: rkind(inValue) != 22 ==> forall(k, old(tr_len), tr_len, tr_arg[k] == inValue)
+
+//@ func Either
+//@   prop C20
+//@   opt callbacks=effectful
+//@   opt effects=trace
+//@   opt inline=true
+
+// ===================================================================================================
+// C20 - sum / product / nil types.  Leaf types are defined outright; SumType, the sum-type pattern and NewCompData are
+// stated as protocols over the calls they make through the CompType interface (events of kind 2, as for MatchFor).
+//@ define KINDOF(v) = ite(absent(v), 0, rkind(v))
+
+//@ func (ProductType).Matches
+//@   prop C20
+//@   opt dispatch=force
+//@   ensures def: r0 == (len(value) == len(typeSelf.kinds) && forall(k, 0, len(value), typeSelf.kinds[k] == KINDOF(value[k])))
+//@ func (ProductType).Matches loop 0
+//@   invariant so-far: len(value) == len(typeSelf.kinds) && matches == forall(k, 0, _i, typeSelf.kinds[k] == KINDOF(value[k]))
+
+//@ func (NilTypeDef).Matches
+//@   prop C20
+//@   opt dispatch=force
+//@   ensures def: r0 == (len(value) == 1 && absent(value[0]))
+
+// SumType: members are asked in order with the same values; true as soon as one accepts, false when all were asked and refused
+//@ func (SumType).Matches
+//@   prop C20
+//@   opt callbacks=effectful
+//@   opt effects=trace
+//@   opt dispatch=CompType:off
+//@   requires forall(k, 0, len(typeSelf.compTypes), !untyped(typeSelf.compTypes[k]))
+//@   ensures asked-in-order: forall(k, old(tr_len), tr_len, tr_kind[k] == 2 && tr_recv[k] == typeSelf.compTypes[k-old(tr_len)] && tr_fn[k] == method("CompType.Matches") && tr_args[k][0] == boxed(value))
+//@   ensures earlier-refused: forall(k, old(tr_len), tr_len-1, tr_res[k] == boxed(false))
+//@   ensures accepted: r0 ==> tr_len > old(tr_len) && tr_len - old(tr_len) <= len(typeSelf.compTypes) && tr_res[tr_len-1] == boxed(true)
+//@   ensures refused: !r0 ==> tr_len == old(tr_len) + len(typeSelf.compTypes) && forall(k, old(tr_len), tr_len, tr_res[k] == boxed(false))
+//@ func (SumType).Matches loop 0
+//@   invariant refused-so-far: tr_len == old(tr_len) + _i && forall(k, old(tr_len), tr_len, tr_kind[k] == 2 && tr_recv[k] == typeSelf.compTypes[k-old(tr_len)] && tr_fn[k] == method("CompType.Matches") && tr_args[k][0] == boxed(value) && tr_res[k] == boxed(false))
+
+// the sum-type pattern asks its type exactly once: about the components of a CompData value, else about the value itself
+//@ func (CompTypePatternDef).Matches
+//@   prop C20
+//@   opt callbacks=effectful
+//@   opt effects=trace
+//@   opt dispatch=CompType:off;MaybeDef:force
+//@   requires !untyped(patternSelf.compType)
+//@   ensures asked-once: tr_len == old(tr_len)+1 && tr_kind[old(tr_len)] == 2 && tr_recv[old(tr_len)] == patternSelf.compType && tr_fn[old(tr_len)] == method("CompType.Matches") && boxed(r0) == tr_res[old(tr_len)]
+//@   ensures components: !absent(value) && isa(value, CompData) ==> tr_args[old(tr_len)][0] == boxed(as(value, CompData).objects)
+//@   ensures itself: !(!absent(value) && isa(value, CompData)) ==> len(asslice(tr_args[old(tr_len)][0])) == 1 && asslice(tr_args[old(tr_len)][0])[0] == value
+
+//@ func MatchCompTypeRef
+//@   prop C20
+//@   opt callbacks=effectful
+//@   opt effects=trace
+//@   opt dispatch=CompType:off
+//@   requires !untyped(compType) && value != nil
+//@   ensures asked-once: tr_len == old(tr_len)+1 && tr_kind[old(tr_len)] == 2 && tr_recv[old(tr_len)] == compType && tr_fn[old(tr_len)] == method("CompType.Matches") && boxed(r0) == tr_res[old(tr_len)] && tr_args[old(tr_len)][0] == boxed(value.objects)
+//@ func MatchCompType
+//@   prop C20
+//@   opt callbacks=effectful
+//@   opt effects=trace
+//@   opt dispatch=CompType:off
+//@   requires !untyped(compType)
+//@   ensures asked-once: tr_len == old(tr_len)+1 && tr_kind[old(tr_len)] == 2 && tr_recv[old(tr_len)] == compType && tr_fn[old(tr_len)] == method("CompType.Matches") && boxed(r0) == tr_res[old(tr_len)] && tr_args[old(tr_len)][0] == boxed(value.objects)
+
+// NewCompData returns a value iff the type accepts the arguments; the value records exactly the type and the arguments
+//@ func NewCompData
+//@   prop C20
+//@   opt callbacks=effectful
+//@   opt effects=trace
+//@   opt dispatch=CompType:off
+//@   requires !untyped(compType)
+//@   ensures asked-once: tr_len == old(tr_len)+1 && tr_kind[old(tr_len)] == 2 && tr_recv[old(tr_len)] == compType && tr_fn[old(tr_len)] == method("CompType.Matches") && tr_args[old(tr_len)][0] == boxed(value)
+//@   ensures iff-accepted: boxed(r0 != nil) == tr_res[old(tr_len)]
+//@   ensures records: r0 != nil ==> fresh(r0) && r0.compType == compType && r0.objects == value
+
+//@ func DefSum
+//@   prop C20
+//@   ensures made: isa(r0, SumType) && as(r0, SumType).compTypes == compTypes
+//@ func DefProduct
+//@   prop C20
+//@   ensures made: isa(r0, ProductType) && as(r0, ProductType).kinds == kinds
